@@ -11,6 +11,7 @@ import (
 	"go/types"
 	"os"
 	"strings"
+	"sync"
 
 	"golang.org/x/tools/go/ssa"
 )
@@ -116,8 +117,10 @@ type Interp struct {
 	lockTab   map[string]*lockState
 	caseLabel string
 	curOp     string
+	siteHint  string
 	sample    string
 	fnStack   []*ssa.Function
+	inverse    map[*SymStr]invRec // results of encoders whose decoder is their inverse
 	inYield    bool
 	initPhase  bool
 	blobs      map[*SymStr]*blobRec
@@ -160,6 +163,23 @@ func (in *Interp) unsupported(format string, a ...interface{}) {
 // Conditions need not be exclusive; infeasible ones are pruned by the solver.
 // site is used for unwinding accounting (may be nil).
 var slowDebug = os.Getenv("GOSYM_SLOW") != ""
+
+var (
+	forkStats map[string]int
+	forkMu    sync.Mutex
+)
+
+func init() {
+	if os.Getenv("GOSYM_FORKS") != "" {
+		forkStats = map[string]int{}
+	}
+}
+
+type invRec struct {
+	kind string
+	t    *Term
+	s    *Str
+}
 
 type specAbort struct{}
 
@@ -231,6 +251,11 @@ func (in *Interp) choose(conds []*Term) int {
 		return k
 	}
 	in.pos++
+	if forkStats != nil {
+		forkMu.Lock()
+		forkStats[in.curFnName()+" @ "+in.siteHint]++
+		forkMu.Unlock()
+	}
 	var feas []int
 	for _, i := range live {
 		if conds[i].IsTrue() {
@@ -707,6 +732,11 @@ func (fr *frame) run() {
 func (fr *frame) visit(instr ssa.Instruction) bool {
 	in := fr.in
 	b := in.b
+	if forkStats != nil {
+		if p := instr.Pos(); p.IsValid() {
+			in.siteHint = in.posStr(p)
+		}
+	}
 	switch x := instr.(type) {
 	case *ssa.DebugRef:
 	case *ssa.UnOp:
@@ -821,7 +851,17 @@ func (fr *frame) visit(instr ssa.Instruction) bool {
 		n := int(int64(in.concretize(ln, "make len")))
 		c := n
 		if cp != ln {
-			c = int(int64(in.concretize(cp, "make cap")))
+			if !cp.IsConst() && cp.hi < 1<<12 && ln.IsConst() {
+				// a symbolic capacity only matters for aliasing between appends; take
+				// the largest possible value instead of forking over all of them
+				in.note("make: symbolic capacity replaced by its upper bound")
+				c = int(cp.hi)
+				if c < n {
+					c = n
+				}
+			} else {
+				c = int(int64(in.concretize(cp, "make cap")))
+			}
 		}
 		if n < 0 || c < n {
 			in.goPanicf(x.Pos(), "makeslice", "makeslice: len out of range")
@@ -1015,7 +1055,7 @@ func (fr *frame) tryMerge(x *ssa.If, cond *Term) bool {
 	case len(F.Succs) == 1 && F.Succs[0] == T && armOK(F, T):
 		join, armF = T, F
 	default:
-		return false
+		return fr.tryFuse(x, cond)
 	}
 	// the join must not have other phis edges we cannot express: fine, we only
 	// set the phis for this entry.
@@ -1224,4 +1264,133 @@ func (in *Interp) lenientResult(fn *ssa.Function) Value {
 		e[i] = mk(res.At(i).Type())
 	}
 	return TupleV{E: e}
+}
+
+// tryFuse handles short-circuit conditions (a && b, a || b used directly as a
+// branch condition): the second test sits in a pure block that shares one
+// target with the first branch.  Both tests are fused into one two-way branch.
+func (fr *frame) tryFuse(x *ssa.If, cond *Term) bool {
+	in := fr.in
+	b := in.b
+	blk := x.Block()
+	for side := 0; side < 2; side++ {
+		arm, other := blk.Succs[side], blk.Succs[1-side]
+		if arm == other || len(arm.Preds) != 1 || len(arm.Instrs) == 0 || len(arm.Instrs) > 16 {
+			continue
+		}
+		last, ok := arm.Instrs[len(arm.Instrs)-1].(*ssa.If)
+		if !ok {
+			continue
+		}
+		pure := true
+		for _, ins := range arm.Instrs[:len(arm.Instrs)-1] {
+			if !pureInstr(ins) {
+				pure = false
+				break
+			}
+		}
+		if !pure {
+			continue
+		}
+		t1, f1 := arm.Succs[0], arm.Succs[1]
+		if t1 != other && f1 != other {
+			continue
+		}
+		// the shared target must not distinguish its two predecessors by phis
+		phiOK := true
+		for _, ins := range other.Instrs {
+			phi, isPhi := ins.(*ssa.Phi)
+			if !isPhi {
+				break
+			}
+			var v0, v1 ssa.Value
+			for i, pred := range other.Preds {
+				if pred == blk {
+					v0 = phi.Edges[i]
+				}
+				if pred == arm {
+					v1 = phi.Edges[i]
+				}
+			}
+			if v0 != v1 {
+				phiOK = false
+			}
+		}
+		if !phiOK {
+			continue
+		}
+		// evaluate the arm speculatively
+		saved := map[ssa.Value]Value{}
+		okRun := func() (ok bool) {
+			in.spec = true
+			defer func() {
+				in.spec = false
+				if r := recover(); r != nil {
+					switch r.(type) {
+					case specAbort, *goPanic, *pathEnd:
+						ok = false
+					default:
+						panic(r)
+					}
+				}
+			}()
+			for _, ins := range arm.Instrs[:len(arm.Instrs)-1] {
+				if v, isv := ins.(ssa.Value); isv {
+					if old, had := fr.env[v]; had {
+						saved[v] = old
+					}
+				}
+				fr.visit(ins)
+			}
+			return true
+		}()
+		if !okRun {
+			for v, old := range saved {
+				fr.env[v] = old
+			}
+			continue
+		}
+		c2, isSc := fr.get(last.Cond).(Sc)
+		if !isSc {
+			continue
+		}
+		armCond := cond
+		if side == 1 {
+			armCond = b.Not(cond)
+		}
+		// deep = the arm is taken and its own test leads away from the shared target
+		var deep *Term
+		var deepTarget *ssa.BasicBlock
+		if t1 == other {
+			deep, deepTarget = b.And(armCond, b.Not(c2.T)), f1
+		} else {
+			deep, deepTarget = b.And(armCond, c2.T), t1
+		}
+		in.merges++
+		if in.branch(deep) {
+			fr.prevBlock, fr.block = arm, deepTarget
+		} else {
+			fr.prevBlock, fr.block = blk, other
+		}
+		return true
+	}
+	return false
+}
+
+func (in *Interp) regInverse(res *Str, r invRec) {
+	if len(res.segs) == 1 && res.segs[0].sym != nil {
+		if in.inverse == nil {
+			in.inverse = map[*SymStr]invRec{}
+		}
+		in.inverse[res.segs[0].sym] = r
+	}
+}
+
+func (in *Interp) lookupInverse(s *Str, kind string) (invRec, bool) {
+	if len(s.segs) == 1 && s.segs[0].sym != nil {
+		if r, ok := in.inverse[s.segs[0].sym]; ok && r.kind == kind {
+			return r, true
+		}
+	}
+	return invRec{}, false
 }
